@@ -107,7 +107,7 @@ _ABBR = {
     'IC1': 'information_content(synset1, ic)',
     'IC2': 'information_content(synset2, ic)',
     'ICL': 'information_content(MIL, ic)',
-    'MIL': 'max(_least_common_subsumers(synset1, synset2, False), key=lambda _1: ic[synset1.pos][_1.id])',
+    'MIL': '_most_informative_lcs(synset1, synset2, ic)',
     'LCS0': '_least_common_subsumers(synset1, synset2, simulate_root)[0]',
     'DIST': 'len(synset1.shortest_path(synset2, simulate_root=simulate_root))',
 }
